@@ -17,11 +17,24 @@
   of the key context of a conversation driven through its API from a fresh state (steps and session
   boundaries: key exchanges, `End`, disconnects), every key waiting in the reveal queue is the key of an
   entry the MAC history held in an earlier state of that history: nothing else is ever disclosed.
+  Peer's disconnect (repaired code, Proofs.Fixes5): `processDisconnectedTLV_keeps_keys_to_reveal` — after the
+  disconnect TLV the key context has no DH keys, key ids 0, no counters, no MAC history, and its reveal
+  queue is the old queue followed by the keys of the old MAC history (before the repair all of them were
+  dropped and never disclosed); `disconnect_then_ake_reveals`: after a peer disconnect followed by a
+  completed key exchange they are all in the reveal queue of the new conversation (hence in the reveal
+  field of its first data message: Props.C19 `disconnect_then_ake_next_message_reveals`);
+  `disc_queue_kept_histE`: nothing short of a completed key exchange touches the queue in between.
+  `khist_mac_keys_never_lost` / `runApi_mac_keys_never_lost` / `api_mac_keys_never_lost`: along EVERY history
+  of the key context (steps, key exchanges, `End`, disconnects) — for all API call sequences from a fresh
+  conversation — a MAC key waiting in the reveal queue or in the MAC history (`Keys.Pending`) keeps waiting
+  until a completely generated data message carries it in its reveal field (`RevealedIn`).
 -/
 
 import Proofs.Keys
 import Proofs.ConvLife
 import Proofs.KeysRefineApi
+import Proofs.Fixes5
+import Proofs.Fixes5Api
 namespace Otr.C09
 open Otr
 
@@ -81,5 +94,52 @@ theorem runApi_c09_queue_provenance : type_of% @Otr.runApi_c09_queue_provenance 
 
 /-- provenance of the reveal queue in every conversation reached through the API from a fresh one -/
 theorem api_c09_queue_provenance : type_of% @Otr.api_c09_queue_provenance := @Otr.api_c09_queue_provenance
+
+/-- repaired code: the peer's disconnect wipes DH keys, key ids, counters and MAC history and keeps the MAC keys
+    that are still to be revealed -/
+theorem processDisconnectedTLV_keeps_keys_to_reveal (s : MState) (r : Except Err Unit) (s' : MState)
+    (h : runM processDisconnectedTLV s = .ok (r, s')) :
+    s'.conv.keys.ourCur = none ∧ s'.conv.keys.ourPrev = none ∧
+    s'.conv.keys.theirCur = none ∧ s'.conv.keys.theirPrev = none ∧
+    s'.conv.keys.ourKeyID = 0 ∧ s'.conv.keys.theirKeyID = 0 ∧
+    s'.conv.keys.counters = [] ∧ s'.conv.keys.macHistory = [] ∧
+    s'.conv.keys.oldMACKeys =
+      s.conv.keys.oldMACKeys ++ s.conv.keys.macHistory.map (fun u : MacUse => u.key) := by
+  first | exact Otr.processDisconnectedTLV_keeps_keys_to_reveal | exact @Otr.processDisconnectedTLV_keeps_keys_to_reveal | (apply Otr.processDisconnectedTLV_keeps_keys_to_reveal <;> assumption) | (intros; apply Otr.processDisconnectedTLV_keeps_keys_to_reveal <;> assumption)
+
+/-- the exact key context after the peer's disconnect -/
+theorem processDisconnectedTLV_keys : type_of% @Otr.processDisconnectedTLV_keys := @Otr.processDisconnectedTLV_keys
+
+theorem processDisconnectedTLV_loses_no_mac_key : type_of% @Otr.processDisconnectedTLV_loses_no_mac_key :=
+  @Otr.processDisconnectedTLV_loses_no_mac_key
+
+/-- repaired code: peer disconnect, then a completed key exchange — the old reveal queue and every key of the old
+    MAC history are in the reveal queue of the new conversation -/
+theorem disconnect_then_ake_reveals (K : Crypto) (s s1 s2 s3 : MState) (r1 : Except Err Unit) (a : Ake)
+    (r3 : Except Err (Option Err))
+    (h1 : runM processDisconnectedTLV s = .ok (r1, s1))
+    (hq : ∀ b ∈ s1.conv.keys.oldMACKeys, b ∈ s2.conv.keys.oldMACKeys)
+    (ha : s2.conv.ake = some a)
+    (h3 : runM (akeHasFinished K) s2 = .ok (r3, s3)) :
+    (∀ k ∈ s.conv.keys.oldMACKeys, k ∈ s3.conv.keys.oldMACKeys) ∧
+    (∀ u ∈ s.conv.keys.macHistory, u.key ∈ s3.conv.keys.oldMACKeys) := by
+  first | exact Otr.disconnect_then_ake_reveals | exact @Otr.disconnect_then_ake_reveals | (apply Otr.disconnect_then_ake_reveals <;> assumption) | (intros; apply Otr.disconnect_then_ake_reveals <;> assumption)
+
+/-- after the disconnect nothing short of a completed key exchange touches the reveal queue -/
+theorem disc_queue_kept_histE : type_of% @Otr.disc_queue_kept_histE := @Otr.disc_queue_kept_histE
+
+/-- one step / one boundary: a pending MAC key stays pending unless a complete send has just revealed it -/
+theorem KStep'_pending : type_of% @Otr.KStep'.pending := @Otr.KStep'.pending
+theorem SessionBoundary_pending : type_of% @Otr.SessionBoundary.pending := @Otr.SessionBoundary.pending
+theorem SessionBoundary_queued : type_of% @Otr.SessionBoundary.queued := @Otr.SessionBoundary.queued
+
+/-- no MAC key that is to be disclosed is ever lost, along every history with session boundaries -/
+theorem khist_mac_keys_never_lost : type_of% @Otr.khist_mac_keys_never_lost := @Otr.khist_mac_keys_never_lost
+
+/-- … along an API history (no hypothesis on the cryptography) -/
+theorem runApi_mac_keys_never_lost : type_of% @Otr.runApi_mac_keys_never_lost := @Otr.runApi_mac_keys_never_lost
+
+/-- … for all API call sequences from a fresh conversation -/
+theorem api_mac_keys_never_lost : type_of% @Otr.api_mac_keys_never_lost := @Otr.api_mac_keys_never_lost
 
 end Otr.C09
